@@ -42,7 +42,7 @@ TRUSTED_BASE = [
 ASSUMPTIONS = [
     "values are immutable in the model: in-place mutation through expression side effects (list.append, AttributeDict write-back) is outside it — probed end-to-end, recorded as an open finding",
     "user variables do not start with `_` (the expansion's hidden `_ref_…`/`_event_ref_…` variables live in the same context); parameter names are identifiers, never `$<digits>`",
-    "e2e fragment: callee bodies run synchronously to their end or to `match Never()`; the FlowStarted hand-shake compares call arguments by equality (C04 partial matching coincides with equality on the generated values); defaults are evaluated once per call in the empty context",
+    "e2e fragment: callee bodies run synchronously to their end or to `match Never()` (the event queue is abstracted; the FlowStarted / FlowFinished matches of a call go through the C04 matcher model, pattern evaluated at match time); defaults are evaluated once per call in the empty context",
     "modelled by hand: create_flow_instance, _start_flow, slide branches Assignment/Global/Return, _get_eval_context + `$var` lookup of eval_expression, FlowState.finished_event/_create_out_event, the expansion shape of `$x = await f(..)`",
 ]
 EXHAUSTIVE = {"quick": True, "thorough": True}
@@ -54,8 +54,19 @@ VALUES = [None, True, False, 0, 1, 2, 7, 12, 0.5, 1.5, 2.25, "s", "hello world",
 SCALARS_DISTINCT = [None, 2, 3, 7, 12, "s", "t", "hello"]
 
 
+# does the tree under test carry the repair of fixes/C08-reserved-parameter-names-v2.diff?  (decides which of the two
+# modelled bindings — `createFlowInstance` (repaired) or `createFlowInstanceAsIs` — the fn stream is compared with)
+REPAIRED = tr.repaired()
+
+
 def translate():
-    return tr.run()
+    # the call hand-shakes of the mini interpreter go through the C04 matcher model: its generated constants
+    # (argument_filter, InternalEvents) must be current before the build
+    from ..translate import c04
+
+    info = tr.run()
+    info["c04_constants"] = c04.run()
+    return info
 
 
 # ----------------------------------------------------------------------------- expression / program AST helpers
@@ -164,9 +175,15 @@ BASE_EV = [["flow_id", {"s": "f"}], ["flow_instance_uid", {"s": "(f)u1"}], ["sou
            ["source_head_uid", {"s": "h1"}], ["flow_hierarchy_position", {"s": "0.1"}]]
 
 
+def arg_key(name):
+    """`flow_argument_key` of the repaired tree: a named argument for a parameter called like an internal StartFlow
+    argument travels under "$<name>" (on an unrepaired tree that key is simply ignored by the binding)"""
+    return "$" + name if name in RESERVED else name
+
+
 def mk_fn(params, rets, pos, named, how, extra=(), drop=(), activated=False):
     ev = [[f"${i}", vj.enc(v)] for i, v in pos if v is not ...]
-    ev += [[k, vj.enc(v)] for k, v in named]
+    ev += [[arg_key(k), vj.enc(v)] for k, v in named]
     seen = {k for k, _ in ev}
     base = [kv for kv in BASE_EV if kv[0] not in drop]
     if activated:
@@ -262,9 +279,6 @@ def g_arg_expr(rng, scope_vars):
 
 
 def g_call(rng, flows_by_name, target, form, scope_vars, ret=None, mode=None):
-    # a global passed as an argument and re-assigned by the callee makes the caller's FlowStarted pattern (re-evaluated
-    # at match time, partial-match rules of C04) differ from the event: hand-shake quirk, kept out of the fragment
-    scope_vars = [x for x in scope_vars if x != "g"]
     params = flows_by_name[target]["params"]
     n = len(params)
     names = [p["name"] for p in params]
@@ -592,7 +606,7 @@ def model_requests(case, obs):
     if "skip" in obs:
         return []
     if case["kind"] == "fn":
-        return [{"m": "C08.bind", "params": case["params"], "rets": case["rets"], "ev": case["ev"], "main": False}]
+        return [{"m": "C08.bind", "params": case["params"], "rets": case["rets"], "ev": case["ev"], "main": False, "asis": not REPAIRED}]
     if case["kind"] == "e2e":
         p = case["prog"]
         return [{"m": "C08.exec", "flows": p["flows"], "main": p["main"], "fuel": _fuel(p)}]
@@ -738,9 +752,9 @@ def spec_run(prog):
                         raise _NoExpectation("duplicate named argument")
                     nv[k] = spec_eval(e, env, genv, gdecl)
                 cenv = spec_bind(f["params"], pv, nv)
-                gused = {x: genv.get(x) for x in _vars(st["pos"] + [e for _, e in st["named"]]) if x in gdecl}
+                gused = {x: vj.enc(genv.get(x)) for x in _vars(st["pos"] + [e for _, e in st["named"]]) if x in gdecl}
                 res = run(f["body"], cenv, set(), f["name"])
-                if any(genv.get(x) != v for x, v in gused.items()):
+                if any(vj.enc(genv.get(x)) != v for x, v in gused.items()):  # type-sensitive: True -> 1 is a change
                     # the callee re-assigned a global that the call passes as an argument: the caller's FlowStarted
                     # pattern is re-evaluated with the new value and the caller never resumes — progress is not part of
                     # the statement (design_notes: hand-shake quirk), the model mirrors it
@@ -780,7 +794,7 @@ def oracle(case, obs):
         names = [p["name"] for p in case["params"]]
         try:
             exp = spec_bind(case["params"], [vj.dec(ev[f"${i}"]) for i in range(k)],
-                            {nm: vj.dec(ev[nm]) for nm in names if nm in ev and nm not in RESERVED})
+                            {nm: vj.dec(ev[arg_key(nm)]) for nm in names if arg_key(nm) in ev})
         except _NoExpectation:
             return None
         if obs["start"]["res"] != "ok":
@@ -840,9 +854,10 @@ def oracle(case, obs):
 
 
 def signature(case, obs, msg):
-    if case["kind"] == "fn" and _has_reserved(case["params"]):
+    # on a tree with the repair (flow_argument_key) the reserved-name region is ordinary: model and oracle apply in full
+    if not REPAIRED and case["kind"] == "fn" and _has_reserved(case["params"]):
         return "reserved-parameter-name"
-    if case["kind"] == "e2e" and any(_has_reserved(f["params"]) for f in case["prog"]["flows"]):
+    if not REPAIRED and case["kind"] == "e2e" and any(_has_reserved(f["params"]) for f in case["prog"]["flows"]):
         return "reserved-parameter-name"
     if case["kind"] == "probe" and case["tmpl"].startswith("inplace-"):
         return "inplace-mutation-of-passed-container"
